@@ -16,6 +16,9 @@ struct Walker<'tcx> {
     edges: Vec<Vec<(usize, &'static str)>>,
     events: Vec<Vec<J>>,
     notes: Vec<Vec<String>>,
+    /// per instance: callee def paths of direct calls into the panic machinery / unwrap family, and number of Assert terminators
+    panics: Vec<Vec<String>>,
+    asserts: Vec<usize>,
     work: Vec<usize>,
 }
 
@@ -30,6 +33,8 @@ impl<'tcx> Walker<'tcx> {
         self.edges.push(Vec::new());
         self.events.push(Vec::new());
         self.notes.push(Vec::new());
+        self.panics.push(Vec::new());
+        self.asserts.push(0);
         self.work.push(k);
         k
     }
@@ -146,6 +151,12 @@ impl<'tcx> Walker<'tcx> {
                 TerminatorKind::Call { func, args, .. } | TerminatorKind::TailCall { func, args, .. } => {
                     let fty = self.mono(inst, func.ty(body, tcx));
                     let callee = self.fn_use(k, inst, fty, "call");
+                    if let ty::FnDef(def, _) = *fty.kind() {
+                        let p = path_str(tcx, def);
+                        if is_panic_entry(&p) && !self.panics[k].contains(&p) {
+                            self.panics[k].push(p);
+                        }
+                    }
                     if local {
                         let mut ev = J::obj().set("e", J::s("call")).set("sp", J::s(span_str(tcx, sp))).set("pv", crate::prov(sp));
                         match *fty.kind() {
@@ -188,6 +199,7 @@ impl<'tcx> Walker<'tcx> {
                     }
                 }
                 TerminatorKind::Assert { msg, expected, .. } => {
+                    self.asserts[k] += 1;
                     if local {
                         let kind = match &**msg {
                             mir::AssertKind::BoundsCheck { .. } => "bounds".to_string(),
@@ -325,6 +337,23 @@ impl<'tcx> Walker<'tcx> {
     }
 }
 
+/// direct entries into the panic machinery (used to recognise contract-panicking dependency APIs)
+fn is_panic_entry(p: &str) -> bool {
+    const EXACT: &[&str] = &[
+        "core::option::Option::<T>::unwrap",
+        "core::option::Option::<T>::expect",
+        "core::option::Option::<T>::unwrap_unchecked",
+        "core::result::Result::<T, E>::unwrap",
+        "core::result::Result::<T, E>::expect",
+        "core::result::Result::<T, E>::unwrap_err",
+        "core::result::Result::<T, E>::expect_err",
+        "core::result::Result::<T, E>::unwrap_unchecked",
+        "core::hint::unreachable_unchecked",
+        "core::str::slice_error_fail",
+    ];
+    p.starts_with("core::panicking::") || p.starts_with("std::panicking::") || p.starts_with("core::slice::index::slice_") || EXACT.contains(&p)
+}
+
 fn usize_const<'tcx>(tcx: TyCtxt<'tcx>, v: u64) -> ty::GenericArg<'tcx> {
     ty::Const::from_target_usize(tcx, v).into()
 }
@@ -334,7 +363,7 @@ fn usize_const<'tcx>(tcx: TyCtxt<'tcx>, v: u64) -> ty::GenericArg<'tcx> {
 /// (generic arguments taken from the ADT the alias resolves to).  The special entry
 /// `*nongeneric` seeds every local fn without type/const parameters.
 pub fn mono_graphs<'tcx>(tcx: TyCtxt<'tcx>, spec: &str) -> J {
-    let mut w = Walker { tcx, index: HashMap::new(), insts: Vec::new(), edges: Vec::new(), events: Vec::new(), notes: Vec::new(), work: Vec::new() };
+    let mut w = Walker { tcx, index: HashMap::new(), insts: Vec::new(), edges: Vec::new(), events: Vec::new(), notes: Vec::new(), panics: Vec::new(), asserts: Vec::new(), work: Vec::new() };
     let mut roots_out = Vec::new();
     let mut by_path: HashMap<String, DefId> = HashMap::new();
     let mut nongeneric: Vec<DefId> = Vec::new();
@@ -453,6 +482,12 @@ pub fn mono_graphs<'tcx>(tcx: TyCtxt<'tcx>, spec: &str) -> J {
             o.put("sp", J::s(span_str(tcx, tcx.def_span(did))));
             o.put("pv", crate::prov(tcx.def_span(did)));
             o.put("events", J::Arr(std::mem::take(&mut w.events[k])));
+        }
+        if !w.panics[k].is_empty() {
+            o.put("panic_calls", J::Arr(w.panics[k].iter().map(|s| J::s(s.clone())).collect()));
+        }
+        if w.asserts[k] > 0 {
+            o.put("asserts", J::Int(w.asserts[k] as i128));
         }
         if !w.notes[k].is_empty() {
             o.put("notes", J::Arr(w.notes[k].iter().map(|s| J::s(s.clone())).collect()));
